@@ -49,7 +49,19 @@ def prunePipeline (p : Plan) (ex : Extras) : PruneRes :=
 
 /-- the anti-DoS conditions on the model's own run of the pruned plan: `Prog.Pruned.antiDos` -/
 def antiDos (q : Pruned) (ex : Extras) : String :=
-  q.antiDos (fun n => some ((ex.jetCmr n).getD 0)) ex.jetSem ex.wit
+  let jetCmr := fun n => some ((ex.jetCmr n).getD 0)
+  -- outside the hypothesis of `pipeline_antiDos` (identity roots pairwise distinct): an `assertl` and
+  -- an `assertr` of the pruned plan with one identity root are one node once serialised
+  let twins : Bool :=
+    match ihrs jetCmr q.plan q.codeArrows (witOfList q.wits ex.wit) with
+    | none => false
+    | some an =>
+      let idOf (i : Nat) : Nat := (an.getD i (0, 0)).2
+      let idx := (List.range q.plan.size).filter fun i => q.reach.getD i false
+      let ls := idx.filterMap fun i => match q.plan.getD i .unit with | .assertl _ _ => some (idOf i) | _ => none
+      let rs := idx.filterMap fun i => match q.plan.getD i .unit with | .assertr _ _ => some (idOf i) | _ => none
+      ls.any fun x => rs.contains x
+  if twins then "shared-identity" else q.antiDos jetCmr ex.jetSem ex.wit
 
 def showPruned (q : Pruned) (ex : Extras) : String :=
   let toks := (List.range q.plan.size).map fun i =>
